@@ -119,13 +119,21 @@ theorem cancel2_mid_K {a : ACfg} {s : St} (ib : InvB2 a s) (is : InvS a s) (x : 
       cases h : s.astatus x <;> simp_all [alive2]
     rw [this]; exact is
   | true =>
-    rw [cancel2_alive s x hal hnv]
-    obtain ⟨nb, we, wv, ty, wq, d2, cc, hc', can, v2, dn, vn, da, vs⟩ := is
+    have hni : s.astatus x ≠ .inSoup := by
+      intro h
+      rcases hx with ⟨rfl, hcp⟩ | ⟨rfl, _⟩
+      · rcases is.d2 hcp with h' | h' | ⟨h', _⟩
+        · rw [h] at h'; cases h'
+        · rw [hal] at h'; cases h'
+        · rw [h] at h'; cases h'
+      · have := (is.ip _ h).1; cases this
+    rw [cancel2_alive s x hal hnv hni]
+    obtain ⟨nb, we, wv, ty, wq, d2, cc, hc', can, v2, dn, vn, da, vs, dnf, ip, ds, hs⟩ := is
     obtain ⟨b, tc, bu, q, q', ac1, ac2, ac3, ev1, ev2, ev0, ub, ph⟩ := ib
     rcases hx with ⟨rfl, hcp⟩ | ⟨rfl, hcp⟩
-    · refine ⟨?_, ?_, ?_, ?_, ?_, ?_, ?_, ?_, ?_, ?_, ?_, ?_, ?_, ?_⟩ <;> simp only [St.setA] <;>
+    · refine ⟨?_, ?_, ?_, ?_, ?_, ?_, ?_, ?_, ?_, ?_, ?_, ?_, ?_, ?_, ?_, ?_, ?_, ?_⟩ <;> simp only [St.setA] <;>
         grind [midStage, lateStage, alive2]
-    · refine ⟨?_, ?_, ?_, ?_, ?_, ?_, ?_, ?_, ?_, ?_, ?_, ?_, ?_, ?_⟩ <;> simp only [St.setA] <;>
+    · refine ⟨?_, ?_, ?_, ?_, ?_, ?_, ?_, ?_, ?_, ?_, ?_, ?_, ?_, ?_, ?_, ?_, ?_, ?_⟩ <;> simp only [St.setA] <;>
         grind [midStage, lateStage, alive2]
 
 theorem stepInner_K {a : ACfg} {s : St} (iy : InvY a s) (ib : InvB2 a s) (is : InvS a s) (e : Sess.Ev) :
